@@ -12,6 +12,7 @@ use std::process::{Command, Stdio};
 use std::time::{Duration, Instant};
 
 pub const VERIF: &str = "/verif";
+pub const PROFILE: &str = if cfg!(debug_assertions) { "dev" } else { "release" };
 
 #[derive(Clone, Copy, PartialEq, Eq, Debug)]
 pub enum Tier {
@@ -130,6 +131,9 @@ pub struct Budget {
     pub max_len: usize,
     /// number of shard processes
     pub shards: usize,
+    /// run every case in the dev build too: odd shards use the debug binary with the seed of
+    /// the even shard before them
+    pub dual_profile: bool,
 }
 
 pub struct Env {
@@ -142,6 +146,8 @@ pub struct Env {
     pub known: Vec<Known>,
     /// replay mode: perform blocking / aborting actions for real
     pub strict: bool,
+    /// build profile of this binary
+    pub profile: &'static str,
     pub out_dir: PathBuf,
 }
 
@@ -448,9 +454,11 @@ pub fn shard_main(prop: &Prop, env: Env) -> i32 {
 
     // 3. generated part
     let budget = (prop.budget)(env.tier);
-    let my_cases = (budget.cases / env.of as u64).max(if budget.cases > 0 { 1 } else { 0 });
+    let groups = if budget.dual_profile { (env.of as u64 / 2).max(1) } else { env.of as u64 };
+    let my_cases = (budget.cases / groups).max(if budget.cases > 0 { 1 } else { 0 });
     if failure.is_none() && my_cases > 0 {
-        let seed = splitmix(env.seed ^ splitmix(fnv(env.id) ^ (env.shard as u64 + 1)));
+        let seed_index = if budget.dual_profile { env.shard / 2 } else { env.shard };
+        let seed = splitmix(env.seed ^ splitmix(fnv(env.id) ^ (seed_index as u64 + 1)));
         let mut seed_bytes = [0u8; 32];
         for i in 0..4 {
             seed_bytes[i * 8..i * 8 + 8].copy_from_slice(&splitmix(seed + i as u64).to_le_bytes());
@@ -575,8 +583,9 @@ pub fn parent_main(prop: &Prop, tier: Tier, seed: u64, exe: PathBuf) -> i32 {
     let known = load_known(prop.id);
 
     let mut children = Vec::new();
+    let debug_exe = PathBuf::from(format!("{}/out/target/debug/vh", VERIF));
     for i in 0..of {
-        let child = Command::new(&exe)
+        let child = Command::new(if budget.dual_profile && i % 2 == 1 { &debug_exe } else { &exe })
             .args([
                 "shard",
                 prop.id,
@@ -761,6 +770,11 @@ pub fn replay_main(prop: &Prop, path: &str, exe: PathBuf) -> i32 {
             return 2;
         }
     };
+    if v["case"]["profile"].as_str() == Some("dev") && PROFILE != "dev" {
+        let debug_exe = format!("{}/out/target/debug/vh", VERIF);
+        let st = Command::new(&debug_exe).args(["replay", prop.id, path]).status();
+        return st.ok().and_then(|s| s.code()).unwrap_or(2);
+    }
     let out_dir = PathBuf::from(format!("{}/out/run/{}-replay-{}", VERIF, prop.id, std::process::id()));
     let _ = std::fs::create_dir_all(&out_dir);
     let env = Env {
@@ -772,6 +786,7 @@ pub fn replay_main(prop: &Prop, path: &str, exe: PathBuf) -> i32 {
         exe,
         known: load_known(prop.id),
         strict: true,
+        profile: PROFILE,
         out_dir: out_dir.clone(),
     };
     let mut st = Stats::new();
